@@ -154,7 +154,7 @@ class World:
             if any(c is None for c in calls) or len(calls) < 2:
                 self.history.pop()
                 return
-            s = Sched(len(calls), st_[2])
+            s = Sched(len(calls), st_[2], **({'packages': tuple(st_[3])} if len(st_) > 3 else {}))
             try:
                 res = s.run([c[1] for c in calls])
             except Deadlock as e:
@@ -360,15 +360,78 @@ def check(case, ctx):
     w = World(ctx)
     for st_ in case['history']:
         w.step(copy.deepcopy(st_))
+    if case.get('sweep'):
+        ctx.count('single_preemption_schedule')
+        if w.switches >= 1:
+            ctx.nontriv(case['history'])
+        return
     if w.nontrivial():
         ctx.nontriv(case['history'])
 
 
+# -- one preemption at every point ---------------------------------------------
+# Two calls of the SAME function in two threads; thread 0 is preempted after k
+# yield points (Python lines inside yatiml/ and yaml/), thread 1 then runs to
+# completion, thread 0 finishes. k sweeps over every yield point of the pair,
+# so every place where a call parks per-call state on an object shared by all
+# calls of the function (constructors, representers, the function itself) is
+# hit, deterministically. Each call's result must be the fresh-process result.
+SWEEPS = [
+    # (make step, call of thread 0, call of thread 1)
+    (['make_dumps', 0, 0, 'yaml'], ['dump', 0, 0, 3, 0], ['dump', 0, 0, 1, 0]),
+    (['make_dumps', 0, 0, 'yaml'], ['dump', 0, 0, 1, 0], ['dump', 0, 0, 3, 0]),
+    (['make_dumps', 0, 2, 'yaml'], ['dump', 0, 2, 3, 0], ['dump', 0, 2, 1, 0]),
+    (['make_dumps', 0, 2, 'json'], ['dump', 0, 2, 1, 1], ['dump', 0, 2, 0, 0]),
+    (['make_dumps', 0, 1, 'yaml'], ['dump', 0, 1, 1, 0], ['dump', 0, 1, 3, 0]),
+    (['make_load', 0, 0, 2], ['load', 0, 4], ['load', 0, 23]),
+    (['make_load', 0, 2, 1], ['load', 0, 24], ['load', 0, 1]),
+    (['make_load', 0, 2, 3], ['load', 0, 25], ['load', 0, 8]),
+    (['make_load', 0, 1, 1], ['load', 0, 16], ['load', 0, 9]),
+]
+
+
+def enum_preemptions(everywhere):
+    def gen_(shard, nshards):
+        i = 0
+        for pk in ((['/yatiml/'],) + ((['/yatiml/', '/yaml/'],) if everywhere else ())):
+            for mk, c0, c1 in SWEEPS:
+                # number of yield points of the pair when run one after the other
+                w = World(_NullCtx())
+                w.step(copy.deepcopy(mk))
+                calls = [w.prepare(c0), w.prepare(c1)]
+                s = Sched(2, [(0, 10 ** 9)], packages=tuple(pk))
+                s.run([c[1] for c in calls])
+                total = s.steps
+                for k in range(1, total + 1):
+                    if i % nshards == shard:
+                        yield {'history': [mk, ['batch', [c0, c1], [[0, k], [1, 10 ** 9]], pk]],
+                               'sweep': True}
+                    i += 1
+    return gen_
+
+
+class _NullCtx:
+    evaluations = 0
+    current_case = None
+
+    def count(self, *a, **k):
+        pass
+
+    def finding(self, *a, **k):
+        pass
+
+
 def phases(tier):
-    from yv.runner import StatefulPhase
+    from yv.runner import EnumPhase, StatefulPhase
     quick = tier != 'thorough'
     return [StatefulPhase('call_histories', make_machine, 25 if quick else 300,
-                          25 if quick else 40)]
+                          25 if quick else 40),
+            EnumPhase('single_preemption_sweep', enum_preemptions(not quick),
+                      '%d pairs of calls of one function (dumps of values with an object '
+                      'referenced twice, JSON dumps, loads of valid and invalid documents) in two '
+                      'threads; thread 0 preempted after k yield points, for every k; yield points '
+                      '= Python lines inside yatiml/%s'
+                      % (len(SWEEPS), '' if quick else ', and a second sweep over lines inside yatiml/ and yaml/'))]
 
 
 def teardown():
